@@ -18,12 +18,14 @@ enum Focus {
 	C02,
 	C03,
 	C07,
+	C11,
 }
 
 fn focus_of(plan: &Plan) -> Focus {
 	match plan.check.as_str() {
 		"C02" => Focus::C02,
 		"C03" => Focus::C03,
+		"C11" => Focus::C11,
 		_ => Focus::C07,
 	}
 }
@@ -34,6 +36,7 @@ fn gen_workload(rng: &mut Rng, focus: Focus, nkeys: u16, tags: &mut TagGen, comm
 		Focus::C02 => (3, 35),
 		Focus::C03 => (8, 20),
 		Focus::C07 => (5, 20),
+		Focus::C11 => (3, 30),
 	};
 	for _ in 0..commits {
 		write_txn(rng, 0, nkeys, tags, max_writes, sync_pct, budget, &mut steps);
@@ -50,11 +53,20 @@ fn gen_workload(rng: &mut Rng, focus: Focus, nkeys: u16, tags: &mut TagGen, comm
 	steps
 }
 
+pub fn gen_c11_crash(case_seed: u64, case: u64, tier: Tier) -> Plan {
+	let mut p = gen(case_seed, case, tier, "C11", Focus::C11);
+	p.params.insert("mode".into(), 1);
+	p
+}
+
 fn gen(case_seed: u64, _case: u64, tier: Tier, id: &str, focus: Focus) -> Plan {
 	let mut rng = Rng::new(case_seed);
 	let mut opts = random_opts(&mut rng);
-	if rng.chance(1, 4) {
+	if rng.chance(1, 4) || focus == Focus::C11 {
 		with_vlog(&mut rng, &mut opts);
+	}
+	if focus == Focus::C11 {
+		opts.vlog_max_file = *rng.pick(&[256u64, 512, 1024]);
 	}
 	// tiny memtables so that rotation happens every few commits
 	if rng.chance(2, 3) {
@@ -193,6 +205,7 @@ fn owns(focus: Focus, class: &str, lo: u64) -> bool {
 	match focus {
 		Focus::C02 => matches!(class, "acked_lost" | "acked_write_missing" | "panic") || (class == "open_failed" && lo > 0),
 		Focus::C03 => matches!(class, "not_prefix" | "future_data" | "scan_disagree" | "get_scan_disagree" | "panic"),
+		Focus::C11 => matches!(class, "acked_lost" | "acked_write_missing" | "not_prefix" | "read_error" | "scan_disagree" | "get_scan_disagree" | "panic") || (class == "open_failed" && lo > 0),
 		Focus::C07 => matches!(
 			class,
 			"open_failed" | "reopen_differs" | "probe_shadowed" | "probe_commit_failed" | "close_failed" | "background_error" | "read_error" | "panic" | "recovery_differs"
@@ -314,7 +327,7 @@ impl Sweep<'_> {
 	}
 }
 
-fn judge(plan: &Plan, _tier: Tier) -> Judged {
+pub fn judge(plan: &Plan, _tier: Tier) -> Judged {
 	let focus = focus_of(plan);
 	let mut j = Judged::default();
 	let mut rng = Rng::new(plan.case_seed ^ 0xc4a5);
